@@ -89,8 +89,8 @@ def check_monotone(rep, facts, rule):
                 inst = '{} [{}]'.format(name, r['crit'][0] if r['crit'] else r['path'].cond_text()[-60:])
                 if d.is_const() and grow.is_const():
                     ok = d.const >= 0 and grow.const <= 0
-                elif name == 'resolve_aligns':
-                    # delta = alignment - padding with 0 <= padding <= alignment - 1 (normal form, C09)
+                elif any(facts.is_subclass(c, 'Align') for c in ((r['path'].facts.get(pa.item) or {}).get('isa') or ()) if c in facts.classes):
+                    # an Align item: delta = alignment - padding with 0 <= padding <= alignment - 1 (normal form below, C09)
                     ok = True
                 else:
                     ok = (grow + d).is_zero() and not d.terms
@@ -106,6 +106,8 @@ def check_monotone(rep, facts, rule):
                                                                         r['path'].cond_text()[-100:], r['consumed'], r['appended'], r['delta']), line=getattr(where, 'lineno', None)),
                           nontrivial=bool(r['updates']))
     ci = facts.classes.get('Align')
+    if ci is None or 'resolution_size' not in ci.methods:
+        raise AnalysisError('anchor vanished: Align.resolution_size')
     try:
         ok, forms = alignform.padding_normal_form(ci.methods['resolution_size'])
     except alignform.Undecided as e:
